@@ -156,6 +156,14 @@ EvSetPd(e) ==
   /\ nviol' = nviol + (IF e.kind = "panic" THEN 1 ELSE 0)
   /\ UNCHANGED <<hdr, trees, acc>>
 
+\* the planner's public parameter fields were assigned: later rules use the new values
+EvSetParams(e) ==
+  /\ Report(L(e.kind = "panic", "C08/panic@" \o e.site))
+  /\ hdr' = [hdr EXCEPT !.maxd = e.maxd, !.rad = e.rad, !.bias = e.bias]
+  /\ api' = [api EXCEPT !.panicked = api.panicked \/ e.kind = "panic"]
+  /\ nviol' = nviol + (IF e.kind = "panic" THEN 1 ELSE 0)
+  /\ UNCHANGED <<trees, acc>>
+
 EvSolve(e) ==
   /\ api' = [api EXCEPT !.T = e.T]
   /\ UNCHANGED <<hdr, trees, acc, nviol>>
@@ -448,6 +456,7 @@ Next ==
        CASE e.ev = "reset" -> EvReset(e)
          [] e.ev = "setup" -> EvSetup(e)
          [] e.ev = "setpd" -> EvSetPd(e)
+         [] e.ev = "setparams" -> EvSetParams(e)
          [] e.ev = "solve" -> EvSolve(e)
          [] e.ev = "pre"   -> EvPre(e)
          [] e.ev = "iter"  -> EvIter(e)
